@@ -16,6 +16,7 @@ from hypothesis import strategies as st
 # items at thickness 1 in that direction: Instance.__new__ cuts items into
 # squares and loops over q <= min(W,H)/2, so its cost explodes otherwise.
 EDGE_POINTS = (127, 32767, 2 ** 31 - 1)
+CONSTRUCTOR_WATCHDOG_S = 6.0
 
 CLASSES_ALL = ("tiny", "small", "medium", "int8_edge", "int16_edge_thin",
                "int16_2d", "int32_edge_thin", "huge_thin", "nitems_edge")
@@ -233,9 +234,22 @@ def guillotine(draw: Any, max_bins: int = 4, max_dim: int = 40,
 # ----------------------------------------------------------------------------
 
 def build_instance(case: dict, name: str = "gen"):
+    """Instance through the public constructor.
+
+    On the unchanged tree the constructor needs milliseconds for every
+    generated case (the huge classes are unit-thin for that reason). A changed
+    constructor whose lower-bound loops run over the long bin side would never
+    return for 10^9..10^12 bins: those cases are built under a watchdog and a
+    hit (CaseTimeout) makes the case inconclusive, so that the search goes on.
+    """
     from moptipyapps.binpacking2d.instance import Instance
-    return Instance(name, int(case["W"]), int(case["H"]),
-                    [list(map(int, r)) for r in case["items"]])
+    from vf.core import time_limit
+    W, H = int(case["W"]), int(case["H"])
+    rows = [list(map(int, r)) for r in case["items"]]
+    if max(W, H) > 100_000:
+        with time_limit(CONSTRUCTOR_WATCHDOG_S):
+            return Instance(name, W, H, rows)
+    return Instance(name, W, H, rows)
 
 
 def build_packing(inst: Any, rows: list[list[int]], n_bins: int | None = None):
